@@ -3,6 +3,12 @@ import os
 import tempfile
 
 
+class StopChunk(Exception):
+    def __init__(self, result):
+        Exception.__init__(self, 'chunk aborted after many violations')
+        self.result = result
+
+
 class Result(object):
     """What a chunk reports back."""
     def __init__(self):
@@ -31,6 +37,9 @@ class Result(object):
                                     'detail': detail, 'what': what or kind})
         else:
             self.extra['violations_dropped'] = self.extra.get('violations_dropped', 0) + 1
+            if self.extra['violations_dropped'] > 1500:
+                # the property is broken all over this chunk: stop exploring it (reported as capped)
+                raise StopChunk(self)
 
     def add_extra(self, key, n=1):
         self.extra[key] = self.extra.get(key, 0) + n
